@@ -208,14 +208,16 @@ def run_c03(ctx, replay=None):
                 nflip += e["n"]
                 if e["baseok"] != e["resealok"]:
                     raise vf.Infra("flip sweep re-sealing path disagrees with the sealing helper on an honest event: %s" % e)
-    barrier_lost = [e for _, evs in blocks for e in evs if e["ev"] == "append" and not e["barrier"]]
+    # a write the store itself refused is an observation for the monitor (WritesOK), not a lost barrier
+    refused = lambda e: bool(e.get("apperr") or e.get("senterr"))
+    barrier_lost = [e for _, evs in blocks for e in evs if e["ev"] == "append" and not e["barrier"] and not refused(e)]
 
     # the monitor is stateless per line: one block per recorded call, so that one rejection does not hide the others
     mon_events, origin = [], {}
     n = 0
     for bid, evs in blocks:
         for i, e in enumerate(evs):
-            if e["ev"] == "append" and not e["barrier"]:
+            if e["ev"] == "append" and not e["barrier"] and not refused(e):
                 continue
             mon_events.append({"ev": "reset", "id": n})
             mon_events.append(e)
